@@ -1,0 +1,47 @@
+//go:build verif
+// +build verif
+
+package runtime
+
+// Verification hooks, only compiled with the verif build tag.  A simulator can
+// take control of the scheduling of coroutine goroutines by setting
+// VerifSchedHook: it is called before every blocking operation and after every
+// releasing operation of runtime/thread.go, with the thread owning the mutex or
+// channel operated on.
+
+const (
+	verifEvSpawn       = iota // about to start the goroutine of target (called by the parent)
+	verifEvStart              // first statement of the goroutine of target
+	verifEvExit               // last statement of the goroutine of target
+	verifEvBeforeLock         // about to lock target.mux
+	verifEvAfterUnlock        // just unlocked target.mux
+	verifEvBeforeSend         // about to send on target.resumeCh
+	verifEvAfterSend          // just sent on target.resumeCh
+	verifEvBeforeRecv         // about to receive from target.resumeCh
+	verifEvAfterRecv          // just received from target.resumeCh
+	verifEvCloseChan          // about to close target.resumeCh
+)
+
+// Exported names of the events for the simulator.
+const (
+	VerifEvSpawn       = verifEvSpawn
+	VerifEvStart       = verifEvStart
+	VerifEvExit        = verifEvExit
+	VerifEvBeforeLock  = verifEvBeforeLock
+	VerifEvAfterUnlock = verifEvAfterUnlock
+	VerifEvBeforeSend  = verifEvBeforeSend
+	VerifEvAfterSend   = verifEvAfterSend
+	VerifEvBeforeRecv  = verifEvBeforeRecv
+	VerifEvAfterRecv   = verifEvAfterRecv
+	VerifEvCloseChan   = verifEvCloseChan
+)
+
+// VerifSchedHook is called at every scheduling-relevant point of thread.go if
+// not nil.
+var VerifSchedHook func(ev int, target *Thread)
+
+func verifSched(ev int, target *Thread) {
+	if h := VerifSchedHook; h != nil {
+		h(ev, target)
+	}
+}
